@@ -616,7 +616,7 @@ class Interp:
         Shape of an expression (None = scalar).  Array-valued references are resolved once
         (subscript/bound reads recorded once) and stored in ``cache`` by id of the node.
         """
-        if isinstance(e, (sym.Scalar, sym.Array)):
+        if isinstance(e, (sym.Scalar, sym.Array, sym.DeferredTypeSymbol)):
             base = frame.lookup(e.name)
             if base is None:
                 return self._param_shape(e)
@@ -677,7 +677,7 @@ class Interp:
             return float(str(e.value).lower().replace('d', 'e'))
         if isinstance(e, sym.LogicLiteral):
             return bool(e.value)
-        if isinstance(e, (sym.Scalar, sym.Array)):
+        if isinstance(e, (sym.Scalar, sym.Array, sym.DeferredTypeSymbol)):
             base = frame.lookup(e.name)
             if base is None:
                 return self._param_value(e, frame)
